@@ -43,6 +43,7 @@ type Clause struct {
 type LoopSpec struct {
 	Ghost    []Clause // Label = name, Src = expression captured at loop entry
 	Inv      []Clause
+	Assert   []Clause // proof steps: checked at the end of the body (before the increment), then assumed
 	Unroll   bool
 	WritesFresh bool // every heap write of the loop targets an object allocated after function entry (checked)
 	Modifies []string
@@ -292,6 +293,8 @@ func (db *ContractDB) loadFile(fn string) error {
 				switch f[1] {
 				case "invariant":
 					ls.Inv = append(ls.Inv, mkClause(body))
+				case "assert":
+					ls.Assert = append(ls.Assert, mkClause(body))
 				case "ghost":
 					// loop N ghost name = expr
 					kv := strings.SplitN(body, "=", 2)
